@@ -261,6 +261,11 @@ def gen_ec(r, tier, f, focus):
     r.shuffle(weak)
     r.shuffle(rest)
     b = (weak + rest)[:k_first]
+    if len(curves) > 1 and r.random() < 0.5:
+      # a second curve partition without any structured key
+      other = [j for j in range(n) if pool[j]["curve"] == curves[1].cid and
+               not pool[j]["fam"].startswith("weak_priv")]
+      b += other[:r.randint(1, 2)]
     others = [j for j in range(n) if pool[j]["curve"] not in A.curves()]
     b += r.sample(others, min(len(others), r.randint(0, 2)))
     r.shuffle(b)
@@ -356,6 +361,25 @@ def gen_ec(r, tier, f, focus):
       length += 3
   pair_c1 = [j for j in range(n) if pool[j]["fam"] == "small_diff"]
   chain = [j for j in range(n) if pool[j]["fam"] == "small_diff_chain"]
+  if len(curves) > 1 and budget >= 2:
+    # two curve partitions in one call, a positive verdict in exactly one of
+    # them: the call's return value must be the OR over the partitions
+    wk = [j for j in range(n) if pool[j]["fam"].startswith("weak_priv") and
+          pool[j]["curve"] in (curves[0].cid, curves[1].cid)]
+    if wk and r.random() < 0.8:
+      w = r.choice(wk)
+      other_cid = curves[1].cid if pool[w]["curve"] == curves[0].cid \
+          else curves[0].cid
+      quiet = [j for j in range(n) if pool[j]["curve"] == other_cid and
+               pool[j]["fam"] in ("healthy", "negated_pair")]
+      if quiet:
+        b = [w] + quiet[:r.randint(1, 2)]
+        r.shuffle(b)
+        budget -= 2
+        ops.append({"op": "check", "batch": b, "oracle": [],
+                    "check": {"name": "CheckWeakECPrivateKey",
+                              "how": "registry", "via": "all"}})
+        length += 1
   dup_idx = [j for j in range(n) if pool[j]["fam"] == "duplicate"]
   if dup_idx and pair_c1 and r.random() < 0.6:
     # identical keys and a close pair in one batch: per-key bookkeeping
